@@ -46,6 +46,10 @@ int
 parsec_util_keyval_parse_finalize(void)
 {
     if (NULL != key_buffer) free(key_buffer);
+    /* the parser can be used again (parsec_mca_param_recache_files, a second
+       parsec_init): do not leave the freed buffer reachable */
+    key_buffer = NULL;
+    key_buffer_len = 0;
 
     return PARSEC_SUCCESS;
 }
